@@ -256,6 +256,18 @@ func runC08(c *core.Ctx) {
 			for _, i := range idxs {
 				ejobs = append(ejobs, ej{p, i})
 			}
+			// indices whose I_L starts with a zero byte (a short big-endian shift) or with FF: scanned with an own HMAC
+			zero, ff := 0, 0
+			for i := uint32(0); i < 8192 && (zero < 8 || ff < 2); i++ {
+				I := c02mac(p.ref.Chain, p.ref.Pub, []byte{byte(i >> 24), byte(i >> 16), byte(i >> 8), byte(i)})
+				if I[0] == 0 && zero < 8 {
+					zero++
+					ejobs = append(ejobs, ej{p, i})
+				} else if I[0] == 0xFF && ff < 2 {
+					ff++
+					ejobs = append(ejobs, ej{p, i})
+				}
+			}
 		}
 		core.Par(len(ejobs), func(k int) {
 			p, i := ejobs[k].p, ejobs[k].i
